@@ -283,9 +283,10 @@ func execute(s *engine.Script, o *engine.Outcome) {
 					// len(w) and handed the rest back), yet it refuses w when nothing
 					// follows: the outcome for w changes when bytes are appended to it
 					cls := "C03/complete-structure-rejected-unless-more-bytes-follow/" + ad.Name
-					// two specific, recorded corners: fixed minimum sizes computed for
-					// Ed25519 identities, which a structure with a DSA-SHA1 identity
-					// (40-byte signature) undercuts
+					// two specific corners, found here and repaired by /repo 6a548f7: fixed
+					// minimum sizes computed for Ed25519 identities, which a structure with
+					// a DSA-SHA1 identity (40-byte signature) undercuts. The qualifier
+					// stays so that a regression shows under the name it was reported by
 					if ad.Name == "ReadLeaseSet2" && len(fr.w) < 499 {
 						cls += "/shorter-than-the-parsers-fixed-minimum-of-499-bytes"
 					}
